@@ -251,6 +251,9 @@ func (s step) String() string { return s.Call + "(" + s.Kind + ")" }
 type bCase struct {
 	Part  string `json:"part"`
 	Steps []step `json:"steps"`
+	// Big > 0: payload kind "bigdelta" is the delta left by merging a peer's complete state of Big subscriptions (a
+	// volatile payload as large as a complete state ever is); only the update queued next to it (opAdd3) is tracked
+	Big int `json:"big_state_entries,omitempty"`
 }
 
 type entry struct{ A, D int64 }
@@ -340,13 +343,23 @@ func runB(c *core.Ctx, cs bCase) {
 	c.Add("coalescing_cases", 1)
 	var verdictSig, verdictWhat string
 	b := getEnv()
+	if cs.Big > 0 {
+		b = newBenv() // a broker of its own: the state size matters
+		defer b.env.Close()
+	}
 	sw := b.env.Svc.VerifCluster()
 	self := sw.ID()
 	base := security.ID(b.cases * 10)
+
 	body := func(s *sched.Sched) {
 		ev1 := &event.Subscription{Peer: self, Conn: base + 1, Ssid: message.Ssid{1, 2}}
 		ev2 := &event.Subscription{Peer: self, Conn: base + 2, Ssid: message.Ssid{1, 3}}
+		ev3 := &event.Subscription{Peer: self, Conn: base + 3, Ssid: message.Ssid{1, 4}}
 		mine := map[string]bool{fmt.Sprintf("conn%d", base+1): true, fmt.Sprintf("conn%d", base+2): true}
+		if cs.Big > 0 {
+			// a complete state beyond the encoder's sample size is sent as a sample: only the new update is tracked
+			mine = map[string]bool{fmt.Sprintf("conn%d", base+3): true}
+		}
 		sw.Notify(ev1, true)
 		sw.Notify(ev2, true)
 		senders := []*mesh.VerifSender{mesh.NewVerifSender(), mesh.NewVerifSender()}
@@ -362,6 +375,21 @@ func runB(c *core.Ctx, cs bCase) {
 			case "opAdd2":
 				sw.Notify(ev2, true)
 				return b.cap.last
+			case "opAdd3":
+				sw.Notify(ev3, true)
+				return b.cap.last
+			case "bigdelta":
+				// a peer's complete state (Big subscriptions of that peer) arrives; everything in it is news, so the
+				// delta relayed onward is a volatile payload of that size
+				in := event.NewState("")
+				for i := 0; i < cs.Big; i++ {
+					in.Add(&event.Subscription{Peer: 77, Conn: security.ID(1000000 + i), Ssid: message.Ssid{1, 9}})
+				}
+				d, err := sw.OnGossip(in.Encode()[0])
+				if err != nil || d == nil {
+					panic(fmt.Sprintf("harness: OnGossip returned no delta for the big snapshot (%v)", err))
+				}
+				return d
 			case "delta":
 				// what merging an incoming payload returns for onward relay
 				in := event.NewState("")
@@ -428,6 +456,9 @@ func runB(c *core.Ctx, cs bCase) {
 	}
 	_ = seq
 	shape := shapeOf(cs.Steps)
+	if cs.Big > 0 {
+		shape += ":big-state"
+	}
 	switch {
 	case x.Hang:
 		c.Violate("b:hang:"+shape, "execution did not finish", cs)
@@ -447,7 +478,7 @@ func shapeOf(steps []step) string {
 	var out []string
 	for _, st := range steps {
 		k := "op"
-		if st.Kind == "delta" || st.Kind == "live" {
+		if st.Kind == "delta" || st.Kind == "live" || st.Kind == "bigdelta" {
 			k = st.Kind
 		}
 		l := "1"
@@ -492,6 +523,19 @@ func partB(c *core.Ctx) {
 		}
 	}
 	rec(nil)
+	// a delta as large as a complete state ever is (50000 entries, relayed after a peer's complete state was merged)
+	// queued on a link, and an update with a new key queued behind / before it
+	for _, steps := range [][]step{
+		{{"B1", "bigdelta"}, {"B1", "opAdd3"}}, // same bucket (broadcasts of one source): coalesced
+		{{"S1", "opAdd3"}, {"S1", "bigdelta"}},
+		{{"Sboth", "bigdelta"}, {"Sboth", "opAdd3"}, {"S1", "opDel1"}},
+	} {
+		if c.Expired() {
+			break
+		}
+		runB(c, bCase{Part: "b", Steps: steps, Big: 50000})
+		c.Distinct("sequences", fmt.Sprint("big", steps))
+	}
 	c.Sample(bCase{Part: "b", Steps: []step{{"B1", "opAdd1"}, {"B1", "opAdd2"}}})
 }
 
